@@ -11,7 +11,9 @@ import time
 VERIF = os.path.dirname(os.path.dirname(os.path.abspath(__file__)))
 REPO = os.environ.get("VERIF_REPO", "/repo")
 P2X = os.path.join(VERIF, "tools/extract/target/release/p2x")
-GEN = os.path.join(VERIF, "gen")
+# generated files of a run against /repo itself go to gen/; runs against another tree (seeded changes, self-tests) get a
+# directory of their own so that concurrent runs cannot overwrite each other's generated files
+GEN = os.path.join(VERIF, "gen") if os.path.realpath(REPO) == "/repo" else os.path.join(VERIF, ".cache", "gen-other", "%d" % os.getpid())
 # evidence/ describes /repo itself; runs against another tree (selftest, seeded changes) write elsewhere
 EVIDENCE = os.path.join(VERIF, "evidence") if os.path.realpath(REPO) == "/repo" else os.path.join(VERIF, ".cache", "evidence-other-tree")
 REPLAY = os.path.join(VERIF, "replay")
